@@ -194,6 +194,12 @@ type flushAnalyser struct {
 	}
 	memo     map[*types.Func][2]flushState // result from entry Flushed / Dirty
 	progress map[*types.Func]bool
+	// tables: the value variable of a loop over a literal table of functions (closures over the stream, method
+	// values of the fields) -> the rows, in order
+	tables map[types.Object][]ast.Expr
+	// tableAt: the operand of such a loop -> the rows (a loop over a non-empty literal table runs: its rows are
+	// applied where the operand is evaluated, so that the path around the loop does not count as a path)
+	tableAt map[ast.Node][]ast.Expr
 }
 
 func newFlushAnalyser(p *core.Program) *flushAnalyser {
@@ -215,6 +221,51 @@ func newFlushAnalyser(p *core.Program) *flushAnalyser {
 
 // effect of one call on the flush state.
 func (fa *flushAnalyser) callEffect(info *types.Info, call *ast.CallExpr, vars map[types.Object]bool, s flushState) flushState {
+	// a row of a table of field writers: all rows are called in order, the state after the loop is the one after the
+	// last row
+	if id, ok := unparen(call.Fun).(*ast.Ident); ok {
+		if rows, ok := fa.tables[info.Uses[id]]; ok && len(rows) > 0 {
+			return fa.rowsEffect(info, rows, vars, s)
+		}
+	}
+	return fa.callEffect2(info, call, vars, s)
+}
+
+// rowsEffect applies the rows of a table of field writers in order.
+func (fa *flushAnalyser) rowsEffect(info *types.Info, rows []ast.Expr, vars map[types.Object]bool, s flushState) flushState {
+	{
+		{
+			for _, row := range rows {
+				switch r := unparen(row).(type) {
+				case *ast.FuncLit:
+					for _, c := range callsIn(r.Body) {
+						s = fa.callEffect(info, c, vars, s)
+					}
+				case *ast.SelectorExpr:
+					// a method value x.f.WriteTo called with the stream
+					if r.Sel.Name == "WriteTo" {
+						if sel := info.Selections[r]; sel != nil {
+							if f, ok := sel.Obj().(*types.Func); ok {
+								if d, ok := fa.declOf[funcOrigin(f)]; ok {
+									s = fa.summary(funcOrigin(f), d.pk, d.fd)[fsDirty]
+									continue
+								}
+							}
+						}
+						s = fsFlushed
+					} else {
+						s = fsDirty
+					}
+				default:
+					s = fsDirty
+				}
+			}
+			return s
+		}
+	}
+}
+
+func (fa *flushAnalyser) callEffect2(info *types.Info, call *ast.CallExpr, vars map[types.Object]bool, s flushState) flushState {
 	// method on the stream itself
 	if sel, ok := unparen(call.Fun).(*ast.SelectorExpr); ok {
 		if o := identObj(info, sel.X); o != nil && vars[o] {
@@ -276,9 +327,45 @@ func (fa *flushAnalyser) run(pk *packages.Package, fd *ast.FuncDecl, entry flush
 	obj := info.Defs[fd.Name].(*types.Func)
 	sig := obj.Type().(*types.Signature)
 	_, errRes := lastResultIsError(sig)
+	savedTables, savedAt := fa.tables, fa.tableAt
+	fa.tables = map[types.Object][]ast.Expr{}
+	fa.tableAt = map[ast.Node][]ast.Expr{}
+	defer func() { fa.tables, fa.tableAt = savedTables, savedAt }()
+	ast.Inspect(fd.Body, func(x ast.Node) bool {
+		rs, ok := x.(*ast.RangeStmt)
+		if !ok {
+			return true
+		}
+		vid, ok := rs.Value.(*ast.Ident)
+		if !ok {
+			return true
+		}
+		cl, _ := unparen(rs.X).(*ast.CompositeLit)
+		if cl == nil {
+			if id, ok := unparen(rs.X).(*ast.Ident); ok {
+				if d := singleDefOf(info, fd, info.Uses[id]); d != nil {
+					cl, _ = unparen(d).(*ast.CompositeLit)
+				}
+			}
+		}
+		if cl == nil || len(cl.Elts) == 0 {
+			return true
+		}
+		if _, isFn := info.TypeOf(vid).Underlying().(*types.Signature); !isFn {
+			return true
+		}
+		if o := info.Defs[vid]; o != nil {
+			fa.tables[o] = cl.Elts
+			fa.tableAt[rs.X] = cl.Elts
+		}
+		return true
+	})
 	pm := parentMap(fd)
 	g := buildCFG(info, fd.Body)
 	transfer := func(n ast.Node, s flushState) flushState {
+		if rows, ok := fa.tableAt[n]; ok {
+			s = fa.rowsEffect(info, rows, vars, s)
+		}
 		for _, c := range callsIn(n) {
 			s = fa.callEffect(info, c, vars, s)
 		}
